@@ -29,7 +29,7 @@ COMPONENTS = {'MPS / SuperNet wrappers, quantizer samplers, combiners, summary, 
               'search script, aborts, crash/restart': 'simulated'}
 SIM_TIME_UNIT = 'ops of the simulated search script'
 
-BASE_WEIGHTS = {'train_step': 3, 'forward_only': 4, 'perturb_arch': 4, 'set_mode': 3, 'softmax_opts': 3.5}
+BASE_WEIGHTS = {'ckpt': 0.8, 'train_step': 3, 'forward_only': 4, 'perturb_arch': 4, 'set_mode': 3, 'softmax_opts': 3.5}
 
 
 def budget(tier):
@@ -336,6 +336,7 @@ def execute(case):
                                  'export-not-argmax', f'{tag}: {cname}: kept branches {sorted(kept)} arg-max {best} raw {a.tolist()}',
                                  culprit)
 
+    saved_temperature = [None]
     last_ctrl = 'construction'
     perturbed = False
     monitored_after_perturb = False
@@ -358,6 +359,10 @@ def execute(case):
             last_ctrl = 'restart'
             events.append(f'{idx} crash_restart')
             continue
+        if k == 'save_ckpt':
+            saved_temperature[0] = opts['temperature']
+        if k == 'load_ckpt' and method == 'mps' and saved_temperature[0] is not None:
+            opts['temperature'] = saved_temperature[0]      # MPS keeps its temperature in a buffer: it comes back
         if k == 'softmax_opts':
             for kk, vv in op['kw'].items():
                 opts[kk] = float(vv) if kk == 'temperature' else bool(vv)
